@@ -729,6 +729,9 @@ package engine
 //@   trusted
 //@   modifies nothing
 
+//@ -- detached(t): every variable of t is fresh, i.e. no later binding made by the caller can reach it
+//@ spec abstract detached(t Term) bool
+
 //@ -- compile: the stored clause term is the given term with the bindings in force applied (C10)
 //@ func compile
 //@   property C10
@@ -737,6 +740,7 @@ package engine
 //@   trusted-frame
 //@   let rt = resolve(env, t)
 //@   at-store clause.raw requires[stored-term-has-the-bindings-applied] v == simplified(env, rt)
+//@   at-store clause.raw requires[stored-term-shares-no-variable-with-the-caller] detached(v)
 //@   at-store altIterator.Env requires[alternatives-are-read-in-the-clause-environment] v == env
 //@   ensures[one-stored-entry-per-given-clause] result1 == nil ==> len(result0) == 1
 
@@ -1577,6 +1581,7 @@ package engine
 //@ func renamedCopy
 //@   trusted
 //@   modifies nothing
+//@   ensures result1 == nil ==> detached(result0)
 
 //@ func FindAll
 //@   property C11
